@@ -31,7 +31,7 @@ Inductive case :=
 | CUuid (u : str) (impl : str)
 (* hostport(s); [ref] = what net.SplitHostPort returned when it accepted s *)
 | CHostport (s : str) (impl : outcome (str * str)) (ref : option (str * str))
-(* lex([]rune(s)) for ASCII s *)
+(* lex([]rune(s)), any bytes *)
 | CLex (s : str) (typ : N) (n : N)
 (* logger.New(w, format) then Log(e): impl = Err k when New failed (1 invalid field,
    2 empty format), Panic when Log panicked, otherwise all bytes written to w;
@@ -40,6 +40,10 @@ Inductive case :=
    A panic of Log and a time field that is not the UTC rendering are plain violations
    (they were known findings F-C20-1 / F-C20-2 until bb1b4e7 / 1da7601), and so is a host
    field that keeps the brackets of an IPv6 literal (F-C20-3 until 0f981ad). *)
+(* the ResponseWriter calls httputil.ReverseProxy made on fabio's wrapper during one real
+   request (informational responses, the final status, the body writes), what the logged
+   event says (status, size) and what the client received (final status, body bytes) *)
+| CRw (calls : list rwcall) (ev_code ev_size : Z) (client_code client_size : Z)
 | CLog (format : str) (e : event) (impl : outcome str) (nwrites : N) (ref : option str).
 
 Definition atoi_domain (i pad : Z) : bool := int64_ok i && (pad <=? 127)%Z.
@@ -92,11 +96,17 @@ Definition check_case (c : case) : N :=
                   end in
       verdict same spec None (is_ok m)
   | CLex s typ n =>
-      let '(t, k) := lex s in
+      let rs := utf8_decode s in
+      let '(t, k) := lex rs in
       let same := (typ_code t =? typ) && (N.of_nat k =? n) in
       (* progress: a non-empty input yields a non-empty item that fits *)
-      let spec := match s with [] => true | _ => (1 <=? n) && (n <=? N.of_nat (length s)) end in
+      let spec := match rs with [] => true | _ => (1 <=? n) && (n <=? N.of_nat (length rs)) end in
       verdict same spec None true
+  | CRw calls ev_code ev_size client_code client_size =>
+      let m := rw_run calls in
+      let same := (fst m =? ev_code)%Z && (snd m =? ev_size)%Z in
+      let spec := (ev_code =? client_code)%Z && (ev_size =? client_size)%Z in
+      verdict same spec None (existsb (fun c => match c with RwHeader k => (k <? 200)%Z | _ => false end) calls)
   | CLog format e impl nwrites ref =>
       let m := log_line format e in
       let same := out_eqb beq impl m && (nwrites =? (if is_ok m then 1 else 0)) in
